@@ -431,3 +431,49 @@ pub proof fn lemma_be_val_small_pos(s: Seq<u8>)
         lemma_be_val_4(s);
     }
 }
+
+pub proof fn lemma_concat_step(a: &Allocator, nodes: Seq<NodePtr>, k: int)
+    requires
+        0 <= k < nodes.len(),
+    ensures
+        concat_bytes(a, nodes.take(k + 1)) == concat_bytes(a, nodes.take(k)) + a.bytes(nodes[k]),
+{
+    assert(nodes.take(k + 1).drop_last() =~= nodes.take(k));
+    assert(nodes.take(k + 1).last() == nodes[k]);
+}
+
+pub proof fn lemma_concat_len_mono(a: &Allocator, nodes: Seq<NodePtr>, k: int)
+    requires
+        0 <= k <= nodes.len(),
+    ensures
+        concat_bytes(a, nodes.take(k)).len() <= concat_bytes(a, nodes).len(),
+    decreases nodes.len() - k,
+{
+    if k == nodes.len() {
+        assert(nodes.take(k) =~= nodes);
+    } else {
+        lemma_concat_step(a, nodes, k);
+        lemma_concat_len_mono(a, nodes, k + 1);
+    }
+}
+
+/// concat_bytes only reads bytes(): it is the same in any allocator that keeps those bytes
+pub proof fn lemma_concat_same(a: &Allocator, b: &Allocator, nodes: Seq<NodePtr>)
+    requires
+        forall|i: int| 0 <= i < nodes.len() ==> a.bytes(#[trigger] nodes[i]) == b.bytes(nodes[i]),
+    ensures
+        concat_bytes(a, nodes) == concat_bytes(b, nodes),
+    decreases nodes.len(),
+{
+    if nodes.len() > 0 {
+        lemma_concat_same(a, b, nodes.drop_last());
+    }
+}
+
+/// Rust language guarantee: no object is larger than isize::MAX bytes; NodePtr is 4 bytes
+#[verifier::external_body]
+pub proof fn axiom_slice_len_nodeptr(s: &[NodePtr])
+    ensures
+        s@.len() <= 0x1fff_ffff_ffff_ffff,
+{
+}
